@@ -163,10 +163,18 @@ def same_value(a, b):
     return tv(a) == tv(b)
 
 
+def _nan_eq(x, y):
+    return x == y or (math.isnan(x) and math.isnan(y))
+
+
 def loose_eq(a, b):
-    """value-only equality (== with NaN == NaN)."""
-    if isinstance(a, float) and isinstance(b, float) and math.isnan(a) and math.isnan(b):
-        return True
+    """value-only equality (== with NaN == NaN, also inside complex numbers)."""
+    if isinstance(a, (float, complex)) and isinstance(b, (float, complex)) and not isinstance(a, bool) and not isinstance(b, bool):
+        try:
+            ca, cb = complex(a), complex(b)
+            return _nan_eq(ca.real, cb.real) and _nan_eq(ca.imag, cb.imag)
+        except Exception:
+            pass
     try:
         return bool(a == b)
     except Exception:
